@@ -1,0 +1,9 @@
+//go:build verif
+
+package node
+
+// VerifMsgpNew lists constructors of the unexported types of this package that have msgp
+// generated code, for the serialization check (C08). No logic.
+var VerifMsgpNew = map[string]func() interface{}{
+	"poolDecode": func() interface{} { return new(poolDecode) },
+}
